@@ -316,8 +316,40 @@ func coqCase(k *Case) string {
 		}
 		return inst(*m)
 	})
-	return c.Tuple(flows, c.Tuple(s1, s2), c.B(t.Dir == "req"), c.Tuple(evs, c.Z(code)),
+	ci := c.Tuple(flows, c.Tuple(s1, s2), c.B(t.Dir == "req"), c.Tuple(evs, c.Z(code)),
 		coqQuotaGroups(&k.Config, keys, fl), refs, c.MapList(decl, inst), irows, marks)
+	// the plain connection lists AS WRITTEN (OrderSuite.case_o): the Coq side builds
+	// the graph from the list (Order.build) and compares it with the harness' reading
+	var ws []string
+	for i := range k.Config.Flows {
+		f := &k.Config.Flows[i]
+		for di, cs := range [][]Conn{f.Req, f.Res} {
+			if w, ok := coqConns(cs, keys); ok {
+				ws = append(ws, "(WL "+c.Z(fl.id(f.Name))+" "+c.B(di == 0)+" "+w+")")
+			}
+		}
+	}
+	return c.Tuple(ci, c.List(ws))
+}
+
+// coqConns: a connection list without `flow:` references as list Order.conn.
+func coqConns(cs []Conn, keys *interner) (string, bool) {
+	var out []string
+	for _, cn := range cs {
+		switch {
+		case cn.From.Kind == "stream" && cn.To.Kind == "proc":
+			out = append(out, "(CEntry "+c.Z(keys.id(cn.To.Name))+")")
+		case cn.From.Kind == "proc" && cn.To.Kind == "proc":
+			out = append(out, "(CEdge "+c.Z(keys.id(cn.From.Name))+" "+c.Z(condID(cn.From.Cond))+" "+c.Some(c.Z(keys.id(cn.To.Name)))+")")
+		case cn.From.Kind == "proc" && cn.To.Kind == "stream":
+			out = append(out, "(CEdge "+c.Z(keys.id(cn.From.Name))+" "+c.Z(condID(cn.From.Cond))+" None)")
+		case cn.From.Kind == "stream" && cn.To.Kind == "stream":
+			out = append(out, "CSkip")
+		default:
+			return "", false
+		}
+	}
+	return c.List(out), true
 }
 
 // coqQuotaGroups: the quotas of the configuration grouped by filter, as listed in
@@ -376,6 +408,22 @@ func runConfig(o *c.Out, cfg Config, txns []Txn, label string) {
 		return
 	}
 	o.Count("configs:" + label)
+	ml, mf, enf := connStats(&cfg)
+	switch {
+	case ml > 24:
+		o.Count("configs:longest-connection-list>24")
+	case ml > 12:
+		o.Count("configs:longest-connection-list=13..24")
+	}
+	if mf >= 8 {
+		o.Count("configs:fan-out>=8-siblings")
+	}
+	if enf {
+		o.Count("configs:entry-point-connection-not-first")
+	}
+	if ml > 12 && mf >= 8 && enf {
+		o.Count("configs:>12-connections+wide-fan-out+entry-not-first")
+	}
 	for i := range txns {
 		t := txns[i]
 		Run(st, &t)
@@ -623,7 +671,7 @@ func main() {
 	}
 	o := c.NewOut("C04")
 	o.ShardSize = 150
-	o.DeclareSuite("txn", "From Verif Require Import C04.Model C04.Quota C04.Suite C04.Instance.", "case_i", "run_case_inst")
+	o.DeclareSuite("txn", "From Verif Require Import C04.Model C04.Quota C04.Suite C04.Instance C04.Order C04.OrderSuite.", "case_o", "run_case_ord")
 	e2eDeclare(o) // suite "e2e" (e2e.go): selection + execution + combination in one run
 	o.Rule("hand-written witness configurations, then random configurations: 1-3 user flows (<= 6 request and <= 4 " +
 		"response processors each; Filter / GenerateResponse / MockProcessor / Limiter; fan-out <= 3; unreachable " +
@@ -634,7 +682,13 @@ func main() {
 		"else a sample with both extremes) as request and as response transactions; the same processor key declared by " +
 		"several flows with different parameters (steering header / status and body of the early response), flows using " +
 		"`G.<key>` while declaring <key> themselves (plus the transactions carrying exactly one of the two steering " +
-		"headers); distinct = distinct (graph, " +
+		"headers); wide configurations (one in ~13): a direction - also of an incorporated flow, also a response " +
+		"side entered by a hand-over - with more than 12 (up to ~50) connections, the entry-point connection written " +
+		"first / in the middle / last, fan-outs of 8-16 siblings under one condition written in an order unrelated " +
+		"to their names (some also under the other condition, in another order), one sibling with a nested fan-out, " +
+		"an answering sibling first / in the middle / last, answering processors with 8-16 response connections; the " +
+		"entry-point connection of the request lists of every fourth ordinary configuration moved to the middle / the end / anywhere; the plain " +
+		"connection lists AS WRITTEN are part of the case (Coq builds the graph from them); distinct = distinct (graph, " +
 		"selection, oracle, observed events); non-trivial = at least two processors ran and either a processor " +
 		"answered the request or a processor with several connections was passed" + e2eRule)
 	if e2eReplay(o) {
@@ -663,9 +717,25 @@ func main() {
 		runConfig(o, cfg, txnsFor(r.Fork(1), &cfg, 16), "hand-written")
 	}
 	n := o.Scale(450, 4000, 3000)
+	// wide configurations (wide.go): > 12 connections per direction, entry-point
+	// connection anywhere in the list, fan-outs of 8-16 siblings - spread among the
+	// others (their cases are the big ones: the shards stay balanced)
+	nw := o.Scale(36, 400, 400)
 	for i := 0; i < n; i++ {
+		if wi := i * nw / n; (i+1)*nw/n > wi {
+			wr := c.NewRng(o.Seed*1000003 + uint64(wi) + 700000) // derived from the run's seed; the stream of the other configurations is left as it was
+			wcfg, wlabel := genWideConfig(wr, wi)
+			runConfig(o, wcfg, wideTxns(wr, &wcfg, o.Scale(8, 12, 8), o.Scale(5, 8, 5)), wlabel)
+		}
 		cr := r.Fork(uint64(i) + 100)
 		cfg := genConfig(cr, o.Thorough() || i%3 == 0)
+		if i%4 == 1 {
+			// the entry-point connection of the request lists somewhere else than first
+			mr := c.NewRng(o.Seed*1000003 + uint64(i) + 900000)
+			for fi := range cfg.Flows {
+				cfg.Flows[fi].Req = moveEntry(mr, cfg.Flows[fi].Req, []int{2, 1, 3}[i/4%3])
+			}
+		}
 		label := "one-flow"
 		if len(cfg.Flows) > 1 {
 			label = "several-flows"
